@@ -65,6 +65,8 @@ fn wants_callback(k: Mk) -> Option<bool> {
 struct Target {
     kind: Sexp,
     label: String,
+    /// operand position broken by an operand-swap edit (typegen::TGen::pos)
+    pos: Option<&'static str>,
 }
 
 /// one generated program: binding of type ALL_T[..] or callback
@@ -76,13 +78,13 @@ fn generate(seed: u64, label: &str, k: u64, callback: bool, plan: Option<(Mk, us
         let (sig, params) = *rng.pick(SIGNALS);
         let mut g = TGen::new(rng, side, plan);
         let p = g.callback(params, depth.min(3));
-        (Target { kind: node("kind", vec![atom("cb"), st(sig)]), label: format!("cb-{sig}") }, p, g.counter)
+        (Target { kind: node("kind", vec![atom("cb"), st(sig)]), label: format!("cb-{sig}"), pos: g.pos }, p, g.counter)
     } else {
         let t = *rng.pick(ALL_T);
         let prop = *rng.pick(t.props());
         let mut g = TGen::new(rng, side, plan);
         let p = g.binding(t, depth);
-        (Target { kind: node("kind", vec![atom("prop"), st(prop)]), label: format!("{t:?}") }, p, g.counter)
+        (Target { kind: node("kind", vec![atom("prop"), st(prop)]), label: format!("{t:?}"), pos: g.pos }, p, g.counter)
     }
 }
 
@@ -216,9 +218,13 @@ impl Stream for C05 {
             }
             let Some((target, p)) = found else { continue };
             let req = ir::make_request(target.kind, &p);
+            let mut labels = vec!["reject".to_string(), format!("mut:{}", mk.name()), target.label.clone()];
+            if let Some(pos) = target.pos {
+                labels.push(format!("pos:{pos}"));
+            }
             push3(
                 &mut cases,
-                vec!["reject".into(), format!("mut:{}", mk.name()), target.label.clone()],
+                labels,
                 &req,
                 "c05-reject",
                 Some(node("mut", vec![st(mk.name())])),
